@@ -151,7 +151,7 @@ def cbmc_cmd(ob, v, d, extra=()):
     if ob.unwindset: cmd += ['--unwindset', ','.join(ob.unwindset)]
     if not ob.no_unwind_assert: cmd += ['--unwinding-assertions']
     else: cmd += ['--no-unwinding-assertions']
-    cmd += ['--no-malloc-may-fail', '--drop-unused-functions', '--trace', '--verbosity', '6']
+    cmd += ['--no-malloc-may-fail', '--drop-unused-functions', '--trace', '--verbosity', '6', '--object-bits', '12']
     if ob.solver == 'kissat': cmd += ['--external-sat-solver', 'kissat']
     else: cmd += ['--sat-solver', 'cadical']
     cmd += ob.flags
